@@ -27,7 +27,8 @@ from mc.engine import cli
 from mc.engine.core import Acc, pmap_acc, shard
 from mc.refmodel import geom
 
-ANSWERS = ("y", "n", "", "Y", "yes")
+EOF = "<no answer: input ends (EOF)>"
+ANSWERS = ("y", "n", "", "Y", "yes", "y ", " y", "y\r", EOF)
 OLD = b"OLD CONTENT - must survive a declined overwrite\n"
 
 
@@ -49,6 +50,8 @@ def scripted(answer, run):
             ans = answer[0] if len(run.prompts) == 1 else answer[1]
         if cli.PROMPT_HOOK is not None:
             cli.PROMPT_HOOK(str(prompt), ans)
+        if ans == EOF:
+            raise EOFError("EOF when reading a line")
         return ans
 
     builtins.input = fake
@@ -565,6 +568,19 @@ def run_history(name, pathtype, initial, history, wd=None):
             if msgs:
                 break
             continue
+        if r.error and answer == EOF and len(r.prompts) > 0:
+            # the question was left unanswered: whatever evo does then, the
+            # existing files stay as they are
+            labels.append("declined")
+            for o in before:
+                if o not in after or after[o] != before[o]:
+                    msgs.append("%s: existing file %s was %s although the "
+                                "question was never answered" %
+                                (where, o, "removed" if o not in after
+                                 else "modified"))
+            if msgs:
+                break
+            continue
         if r.error:
             msgs.append("%s: run failed: %s" % (where, r.error))
             break
@@ -644,7 +660,7 @@ def cases_for(name, S, thorough):
                                     cases.append((name, pt, init,
                                                   [(a1, w1), (a2, w2)]))
         else:
-            answers = ANSWERS if thorough else ("y", "n", "")
+            answers = ANSWERS if thorough else ("y", "n", "", "y ", EOF)
             for init in inits[1:]:
                 for a1 in answers:
                     cases.append((name, pt, init, [(a1, True)]))
